@@ -12,4 +12,5 @@ uint32_t wb_thread_request(ABT_thread th);
 void *wb_thread_stacktop(ABT_thread th);
 size_t wb_thread_stacksize(ABT_thread th);
 const void *wb_thread_ctx(ABT_thread th);
+int wb_thread_is_in_pool(ABT_thread th);
 #endif
